@@ -360,3 +360,19 @@ Proof.
   pose proof (denote_order_irrelevant its its' Hok Hnd Hp) as E.
   split; apply Eval_ext; [exact E|intros k; symmetry; apply E].
 Qed.
+
+(* the parsed circuit computes what the netlist of the text computes *)
+Lemma find_def_dget d l : find_def d l = dget d l.
+Proof. induction d as [|[k g] d IH]; [reflexivity|]. simpl. rewrite IH. reflexivity. Qed.
+
+Theorem denote_computes_netlist its :
+  Forall (fun it => item_ok it = true) its -> NoDup (defined_labels its) ->
+  inputs (denote its) = inputs (netlist_of its) /\ outputs (denote its) = outputs (netlist_of its)
+  /\ (forall l, dget (gates (denote its)) l = dget (gates (netlist_of its)) l)
+  /\ forall a l v, Eval (denote its) a l v <-> Eval (netlist_of its) a l v.
+Proof.
+  intros Hok Hnd. destruct (denote_spec its Hok Hnd) as [Hg [Hi Ho]].
+  assert (E : forall l, dget (gates (denote its)) l = dget (gates (netlist_of its)) l)
+    by (intros l; rewrite Hg; apply find_def_dget).
+  repeat split; try assumption; apply Eval_ext; [exact E|intros k; symmetry; apply E].
+Qed.
